@@ -109,7 +109,7 @@ def compare_case(cfg, req, impl_line, model_line):
             elif name not in M:
                 res['model'].append({'field': name, 'impl': iv[:200], 'model': '(model prints no such field)'})
     for name in list(S) + list(M):
-        if name not in I and (matches(name, cfg.get('spec_fields', [])) or matches(name, cfg.get('model_fields', []))):
+        if name not in I and not name.startswith(('ok.', 'agree.')) and (matches(name, cfg.get('spec_fields', [])) or matches(name, cfg.get('model_fields', []))):
             res['model'].append({'field': name, 'impl': '(implementation side prints no such field)', 'model': ''})
     # verdicts computed by the Lean spec checker on the implementation's output: 's.ok.<clause>=1'
     for name, v in S.items():
